@@ -96,17 +96,20 @@ def run(res, tier, build_ok):
         got = ";".join("%s/%d" % (observe(d) if c else "spc/none", c) for d, c in zip(devs, counts))
         res.case(("history", tuple(kinds), tuple(hist)), {"devices": kinds, "history": hist, "final": got})
         res.count("histories")
-        # oracle: each device's set depends only on its own last recognised report
+        # oracle (the property itself, on the implementation): each device ends up as if only its own
+        # attaches had happened, each through a fresh facade - nothing leaks from another device
         for j, d in enumerate(devs):
-            own = [b & 0x1F for k, b in hist if k == j]
-            want = None
-            for t in own:
-                want = STD.get(t, want if want else None) if t in STD else want
-            if own and own[-1] in STD and name_of.get(id(d.opcodes)) != STD[own[-1]]:
-                res.violation("re-attach leak", "device %d reported type %s last but holds %s" % (j, hex(own[-1]), observe(d)),
-                              {"devices": kinds, "history": hist, "final": got})
-            if not own and name_of.get(id(d.opcodes)) != "spc":
-                res.violation("re-attach leak", "device %d was never attached but holds %s" % (j, observe(d)), {"history": hist, "final": got})
+            own = [b for k, b in hist if k == j]
+            solo = new_dev(kinds[j], 600 + j)
+            for b in own:
+                state["byte0"] = b
+                SCSI(solo)
+            want_solo = observe(solo) if own else "spc/None"
+            have = observe(d) if own else "%s/None" % name_of.get(id(d.opcodes), "?")
+            solo.close()
+            if have != want_solo:
+                res.violation("re-attach leak", "device %d (own reports %s) holds %s after the shared-facade history, %s when attached alone" % (
+                    j, [hex(b) for b in own], have, want_solo), {"devices": kinds, "history": hist, "final": got})
         reqs.append(("attachrun %d %s" % (n, ",".join("%d:%d" % e for e in hist)), "ok " + got, "history"))
         for d in devs:
             d.close()
